@@ -1,17 +1,28 @@
 /-
 C14 — rexpy results depend only on the multiset of examples and the seed.
-Proved here (for the batch path, i.e. below the sampling threshold): list form = dictionary form;
-frequencies are irrelevant without pruning options; repeating an example is a no-op; a call is a pure
-function of its inputs (the model has no hidden state). Invariance under reordering, the behaviour under
-sampling, the regex memo and the global PRNG are decided by the oracle on the real code
-(the model is tied on permuted inputs as well).
+Proved here (for the batch path, i.e. below the sampling threshold): reordering the examples changes nothing
+(the whole result - patterns in order, extra letters, whitespace wrapping - is equal, with or without pruning
+options); list form = dictionary form; frequencies are irrelevant without pruning options; repeating an example
+is a no-op; a call is a pure function of its inputs (the model has no hidden state). The behaviour under
+sampling, seeds, the regex memo and the global PRNG are decided by the oracle on the real code.
 -/
 import TddaVerif.Model.Rexpy
 import TddaVerif.Props.C03Spec
 import TddaVerif.Lemmas.RexpyInvariance
+import TddaVerif.Lemmas.RexpyPerm
 
 namespace TddaVerif.Props.C14
 open TddaVerif.Py TddaVerif.Rexpy TddaVerif.Props.C03
+
+/-- **order independence**: any reordering of the examples gives the same result. (The cap on remembered
+    fragment strings must be at least 1 - it is 10; with a cap of 0 the first example would win:
+    `PermLemmas.refineFrag_cap0_order_dependent`.) -/
+theorem order_independent (T : CharTable) (o : Opts) (hcap : 1 ≤ o.sizes.maxStringsInGroup)
+    (items items' : List (Option Line × Nat)) (h : items.Perm items') : extract T o items = extract T o items' :=
+  PermLemmas.extract_perm T o hcap items items' h
+
+/-- the default Size satisfies the cap hypothesis -/
+example : 1 ≤ ({} : Opts).sizes.maxStringsInGroup := by decide
 
 theorem clean_dict_eq_list (stripOpt removeEmpties : Bool) (items : List (Option Line × Nat)) :
     clean stripOpt removeEmpties (Lemmas.expand items) = clean stripOpt removeEmpties items :=
